@@ -61,6 +61,16 @@ PLAN = {
     "C16": {"quick": [e3(1600, templates=["pack", "packunpack"])], "thorough": [e3(16000, templates=["pack", "packunpack"])]},
     "C17": {"quick": [e3(1600)], "thorough": [e3(16000)]},
     "C18": {"quick": [e3(1600), e1(1600)], "thorough": [e3(16000), e1(16000)]},
+    "C19": {"quick": [{"engine": "E7", "params": {"min_T": 120}, "cases": 96, "timeout": 1200}],
+            "thorough": [{"engine": "E7", "params": {"min_T": 120}, "cases": 1600, "timeout": 3000}]},
+    "C12": {"quick": [{"engine": "E4", "params": {}, "cases": 3200}, {"engine": "E4", "params": {"ragged": 1, "kind": "cont_nacc"}, "cases": 160}, e3(800, templates=["line", "fanin", "diamond"])],
+            "thorough": [{"engine": "E4", "params": {}, "cases": 48000}, {"engine": "E4", "params": {"ragged": 1}, "cases": 1600}, e3(8000)]},
+    "C13": {"quick": [{"engine": "E4", "params": {}, "cases": 3200}, e3(800, templates=["line", "fanin", "diamond"])],
+            "thorough": [{"engine": "E4", "params": {}, "cases": 48000}, e3(8000)]},
+    "C20": {"quick": [{"engine": "E8", "params": {"table": "matrix"}, "cases": 2592}, {"engine": "E8", "params": {"table": "invalid"}, "cases": 26},
+                      e3(1600), e1(1600, kinds=STORE_KINDS + ["slotbelt", "belt_acc", "belt_nacc"])],
+            "thorough": [{"engine": "E8", "params": {"table": "matrix"}, "cases": 7776}, {"engine": "E8", "params": {"table": "invalid"}, "cases": 26},
+                         e3(24000), e1(24000, kinds=STORE_KINDS + ["slotbelt", "belt_acc", "belt_nacc"])]},
     "C14": {"quick": [e5(1600), e1(800, kinds=["fleet"])], "thorough": [e5(24000), e1(8000, kinds=["fleet"])]},
 }
 
@@ -84,6 +94,13 @@ RULES = {
     "C16": "E3 pack / pack-unpack factories (recipes [1,1] [1,2] [1,3,1] [1,1,2]); non-trivial = >=3 pallets checked at the combiner's out-edge; distinct by spec hash",
     "C17": "E3 random factories finalised at T (round, non-round, inside set-up, before the first item); non-trivial = a node spent time in >=3 distinct states; distinct by spec hash",
     "C18": "E3 random factories + E1 store histories; non-trivial = >=20 items received and an edge whose occupancy changed >=10 times (E3) / >=6 occupancy changes (E1)",
+    "C19": "E7: E3 model specs (>=120 time units) each run twice in one interpreter, once unmonitored, and in 2 fresh interpreters with PYTHONHASHSEED 1 / 4242 and different heap pre-fill; "
+           "logs (time, edge, op, item) and final statistics compared exactly; clock monotonicity checked at every kernel step; non-trivial = spec uses RANDOM policies / random delays or a conveyor and logged >=200 item movements",
+    "C12": "E4: scripted producer/consumer on one conveyor (continuous/slotted x accumulating/not; integer belt lengths that are multiples of the item length, plus a 'ragged' geometry class; regular/bursty/irregular/saturating arrivals; eager/stalling consumers) + conveyor edges of E3 factories; "
+           "non-trivial = >=8 items and (a put and a get in one instant, or >=4 undisturbed journeys checked for exact travel time); distinct by operation-log / spec hash",
+    "C13": "E4 stalling-consumer scripts + conveyor edges of E3 factories; non-trivial = >=2 stalls with >=2 items on the belt during one of them; distinct by operation-log / spec hash",
+    "C20": "E8: the complete single-stage matrix node type x edge-in x edge-out x blocking x policy x source blocking x zero delays (2592 models; x3 construction orders in thorough) and the table of 26 invalid configurations (both exhaustive), "
+           "+ E3 random factories (every documented combination) + E1 histories on all store kinds incl. belts; non-trivial = every model counts (the property is about each of them); distinct by model index / spec hash",
     "C14": "E5: scripted loading/consumption on one Fleet (capacity 1-5, delay .5-3, transit 0-1.5, gaps aligned with trip boundaries) + E1 fleet histories; "
            "non-trivial = >=3 batches, >=1 capacity departure, >=1 timer departure and >=1 load while a trip was under way; distinct by operation-log hash",
     "C07": "E1 histories with 8% ill-formed calls of 10 classes; non-trivial = an ill-formed call was issued while the store held >=1 item and >=1 other reservation was outstanding; distinct by operation-log hash",
@@ -114,6 +131,10 @@ FLOORS = {
     "C16": {"quick": {"cases": 800, "distinct_nontrivial": 200, "c16_pallets_checked": 3000, "unpacks": 1000}},
     "C17": {"quick": {"cases": 800, "distinct_nontrivial": 300, "c17_nodes_checked": 3000, "c17_integrations": 2000}},
     "C18": {"quick": {"cases": 1500, "distinct_nontrivial": 200, "c18_edge_avg_checks": 3000, "c18_received_items": 10000}},
+    "C19": {"quick": {"cases": 60, "distinct_nontrivial": 20, "c19_runs_compared": 250, "c19_child_interpreters": 100}},
+    "C12": {"quick": {"cases": 2000, "distinct_nontrivial": 1000, "c12_journeys": 30000, "c12_exact_travel_checked": 20000}},
+    "C13": {"quick": {"cases": 2000, "distinct_nontrivial": 500, "c13_stalls": 3000, "c13_na2_checked": 2000}},
+    "C20": {"quick": {"cases": 4000, "distinct_nontrivial": 3000, "c20_matrix_models": 2592, "c20_invalid_configs": 26}},
     "C14": {"quick": {"cases": 1000, "distinct_nontrivial": 200, "c14_batches": 5000, "c14_capacity_departures": 1000,
                       "c14_timer_departures": 1000}},
     "C07": {"quick": {"cases": 800, "distinct_nontrivial": 200, "c07_illformed_calls": 2000}},
